@@ -19,7 +19,7 @@ pub fn show_syntax_themes() -> std::io::Result<()> {
         None,
         &config::Config::from(cli::Opt::parse()).into(),
     )
-    .unwrap();
+    .unwrap_or_else(|_| OutputType::stdout());
     let mut writer = output_type.handle().unwrap();
 
     let stdin_data = if !io::stdin().is_terminal() {
